@@ -80,7 +80,8 @@ static void *mkdest(size_t dmax, int w, size_t extra_elems) {
 /* the byte in front of dest (ordinarily filler) holds a given value: dest as the next slot of a text block */
 static void set_before(unsigned char v) { D.p[-1] = v; before_byte = v; }
 static unsigned long dget(size_t i) { return D.w == 1 ? D.p[i] : ((uint32_t *)D.p)[i]; }
-static void begin(const char *fn, const char *rel, const char *fmt, ...) { cur_fn = fn; cur_rel = rel; exp_str = NULL; exp_mustfail = 0; va_list ap; va_start(ap, fmt); vsnprintf(cur_cs, sizeof cur_cs, fmt, ap); va_end(ap); h_n = 0; fault = 0; errno = 0; n_cases++; }
+static int g_east;      /* the os group run once more with the local time zone 14 hours east of Greenwich */
+static void begin(const char *fn, const char *rel, const char *fmt, ...) { cur_fn = fn; cur_rel = rel; exp_str = NULL; exp_mustfail = 0; va_list ap; va_start(ap, fmt); int o_ = g_east ? sprintf(cur_cs, "east ") : 0; vsnprintf(cur_cs + o_, sizeof cur_cs - o_, fmt, ap); va_end(ap); h_n = 0; fault = 0; errno = 0; n_cases++; }
 #define CALL(stmt) do { if (sigsetjmp(jb, 1) == 0) { armed = 1; stmt; armed = 0; } } while (0)
 
 /* judge: usable = dest non-null, 0 < dmax <= limit; failed: 1 failure indicated, 0 success, -1 cannot tell; code = returned code (0 unknown) */
@@ -447,6 +448,18 @@ static void g_os(void) {
         if (P == 5 && r == -1 && !fault && h_n == 0) continue;     /* the underlying libc conversion failed (five-digit year): a plain -1, not a constraint violation */
         judge(dmax > 0, r != 0, r, SP, 1);
     }
+    /* the last hours of the year 9999 (UTC): east of Greenwich the local date is already in the year 10000, libc's conversion stores most of its
+       text and then fails; west of it and in UTC the call succeeds */
+    { static const time_t LATE[] = { 253402300799L, 253402293600L, 253402250400L, 253402214400L }; static const size_t DM[] = { 26, 40, 119, 120, 128, 512 };
+      for (int ti = 0; ti < 4; ti++) for (int di = 0; di < 6; di++) {
+        char rel[64]; snprintf(rel, sizeof rel, "%s,timer-in-the-last-day-of-9999", DM[di] < 120 ? "26<=dmax<120" : "dmax>=120");
+        begin("ctime_s", rel, "ctime-late %d %zu", ti, DM[di]);
+        char *d = mkdest(DM[di], 1, 0); int r = 0; const time_t *tp = mksrc(1, &LATE[ti], sizeof(time_t));
+        CALL(r = ctime_s_(d, DM[di], tp, BOSU));
+        char cref[64]; if (ctime_r(&LATE[ti], cref)) exp_str = cref;
+        if (P == 5 && r == -1 && !fault && h_n == 0) continue;
+        judge(1, r != 0, r, SP | CE, 1);
+      } }
     /* gmtime_s / localtime_s: the out structure is an exact-fit object */
     for (int which = 0; which < 2; which++) for (int ti = 0; ti < 10; ti++) for (int dn = 0; dn < 2; dn++) {
         char rel[64]; snprintf(rel, sizeof rel, "%s,%s", ti == 9 ? "timer-null" : ti < 2 ? "timer-valid" : "timer-extreme", dn ? "dest-null" : "dest");
@@ -533,13 +546,14 @@ int main(int argc, char **argv) {
     /* replay re-runs the whole (small) group and stops at the named case: cases are cheap and self-describing */
     const char *target = NULL; char tbuf[300] = "";
     if (replay) { for (int i = a + 3; i < argc; i++) { strcat(tbuf, argv[i]); if (i + 1 < argc) strcat(tbuf, " "); } target = tbuf; verbose = 0;
-        sel = !strncmp(tbuf, "printf", 6) ? "printf" : !strncmp(tbuf, "wprintf", 7) ? "wprintf" : (!strncmp(tbuf, "towfc", 5) || !strncmp(tbuf, "wcsfc", 5) || !strncmp(tbuf, "wcsnorm", 7)) ? "unicode" : !strncmp(tbuf, "conv", 4) ? "conv" : !strncmp(tbuf, "normparts", 9) ? "normparts" : "os"; }
+        sel = !strncmp(tbuf, "printf", 6) ? "printf" : !strncmp(tbuf, "wprintf", 7) ? "wprintf" : (!strncmp(tbuf, "towfc", 5) || !strncmp(tbuf, "wcsfc", 5) || !strncmp(tbuf, "wcsnorm", 7)) ? "unicode" : !strncmp(tbuf, "conv", 4) ? "conv" : !strncmp(tbuf, "normparts", 9) ? "normparts" : !strncmp(tbuf, "east ", 5) ? "oseast" : "os"; }
     if (want("printf", sel)) g_printf();
     if (want("wprintf", sel)) g_wprintf();
     if (want("unicode", sel)) g_unicode();
     if (want("normparts", sel)) g_normparts();
     if (want("conv", sel)) g_conv();
     if (want("os", sel)) g_os();
+    if (!strcmp(sel, "oseast")) { g_east = 1; setenv("TZ", "XXX-14", 1); tzset(); g_os(); }
     if (replay) {
         int hit = 0; for (int i = 0; i < nsig; i++) if (!strcmp(sigcase[i], target)) { printf("CASE %s\nVERDICT violation %s\n", target, sigs[i]); hit = 1; }
         if (!hit) { for (int i = 0; i < nsig; i++) if (strstr(sigs[i], argv[argc - 1])) hit = 1; }
